@@ -27,7 +27,7 @@ SPEC = {
     "partial": ["bind_host_port excludes the host spelled `unix` (`unix:80` is a unix-socket path by design of the syntax)",
                 "bare bracketed IPv6 without a port is outside the proved shapes; see known finding F22 if listed",
                 "an IPv6 literal WITHOUT brackets whose last group is a decimal number (`::1`, `2001:db8::370:7334`) is also of the shape host:port and is read so (bind_unbracketed_decimal_tail); the monitor accepts either reading and demands AF_INET6",
-                "histories do not switch TLS OFF on an object that has made sockets under TLS (create_sockets() without TLS records nothing, so the ports of the earlier call stay: the model says the same - `objStep` - and the generator stays away; see design_notes/C19.md)"],
+                "(round 6, F117 repaired) histories may switch TLS off again on an object that made sockets under TLS: its next create_sockets() records that it has no QUIC socket (model: `objStep`)"],
     "assumptions": ["values round-trip through TOML / Python source (checked by the run itself: a loader that cannot represent a value is skipped for that value and counted)"],
 }
 
@@ -1268,6 +1268,7 @@ def gen_histories(ctx: Ctx) -> List[dict]:
     hist("switches", [new(), set_(0, "include_date_header", False), new(), set_(1, "include_server_header", False), tls(1), quic(1), cs(1),
                       set_(0, "include_date_header", True), new()])
     hist("unix-quic", [new(), tls(0), quic(0, 2, unix=True), cs(0), new()])
+    hist("tls-off-again", [new(), tls(0), quic(0, 2), cs(0), tls(0, False), cs(0), new(), tls(0), cs(0)])
     hist("no-tls-no-quic-sockets", [new(), quic(0), cs(0), new(), tls(1), quic(1), cs(1), cs(0)])
     hist("lists-of-one-object", [new(), set_(0, "server_names", ["a.example"]), set_(0, "bind", [f"127.0.0.1:{next(ports)}"]),
                                  set_(0, "insecure_bind", [f"127.0.0.1:{next(ports)}"]), tls(0), cs(0), new(), cs(1)])
@@ -1292,8 +1293,9 @@ def gen_histories(ctx: Ctx) -> List[dict]:
                     tls_on[n_obj] = False
                 n_obj += 1
             elif r < 0.30:
-                # TLS is not switched OFF on an object that has made sockets under TLS (see design_notes/C19.md: out of scope)
-                on = True if (i in served and tls_on[i]) else rng.random() < 0.8
+                # (TLS may be switched OFF again on an object that has made sockets under TLS: its next create_sockets() records
+                # that it has no QUIC socket - F117)
+                on = rng.random() < 0.8
                 ops.append(tls(i, on))
                 tls_on[i] = on
             elif r < 0.50:
@@ -1394,9 +1396,13 @@ def check_histories(ctx: Ctx, cases: List[dict]) -> None:
                                 if quic_ports != want_ports:
                                     ctx.violation("config_history_sockets", c, {"op_index": k, "object": j, "quic_sockets_report": quic_ports,
                                                                                 "quic_bind": sts[j]["quic_bind"], "want_ports": want_ports}, sig)
-                            elif quic_ports:
-                                ctx.violation("config_history_sockets", c, {"op_index": k, "object": j, "quic_sockets_report": quic_ports,
-                                                                            "want": "no QUIC socket without TLS"}, sig)
+                            else:
+                                # without TLS this call makes no QUIC socket: whatever an earlier call (under TLS) made is not
+                                # the object's any more and must not be advertised (F117, repaired in /repo)
+                                sts[j]["quic_ports"] = []
+                                if quic_ports:
+                                    ctx.violation("config_history_sockets", c, {"op_index": k, "object": j, "quic_sockets_report": quic_ports,
+                                                                                "want": "no QUIC socket without TLS"}, sig)
                             mops.append({"op": "create_sockets", "obj": j, "quic": quic_ports})
                         else:
                             raise ValueError(f"unknown operation {op}")
